@@ -1149,6 +1149,12 @@ def FIBER(
 
     A = input.signal
 
+    if beta_2 == 0 and beta_3 == 0:  # without dispersion the self-phase modulation has a closed form (effective length)
+        L_eff = (1 - np.exp(-alpha * length)) / alpha if alpha != 0 else length
+        output = optical_signal(A * np.exp(-alpha * length / 2 + 1j * gamma * L_eff * np.abs(A) ** 2), input.noise)
+        output.execution_time = toc()
+        return output
+
     def P_tot(A):  # total instantaneous power (sum over polarizations when there are two)
         return (np.abs(A) ** 2).sum(axis=0) if A.ndim > 1 else np.abs(A) ** 2
 
